@@ -1,9 +1,386 @@
-import JunoModel.C06.Model
-/-! C06 property theorems (thin first version; extended below). -/
+import JunoModel.C06.ProofsConv
+/-!
+C06 — property theorems (statements only; lemmas are in `Proofs*.lean`).
+
+Model (`Model.lean`): the SERIAL part of juno's sync pipeline as a transition system `Impl.step`
+(every mutation of the chain happens in the callback chain of the `verifiers` stream, one at a
+time); what the source answered, in which order things arrive, whether the stream was cancelled are
+inputs of the events, so "for all event lists" is "for all source behaviours and all goroutine
+schedules" of the part that touches the chain. `Spec.step` is the evidence-based relation the
+harness checks observed traces of the real `Synchronizer` against. `cfg : Cfg` selects the code
+variant (`Cfg.asFound` = /repo as it is; see the two proposed fixes).
+
+Assumptions (recorded in checks/c06.json): block numbers are uint64 values; `RevertHead` succeeds
+on a stored head (property C04); block hashes are collision free (`HashInj`) where chains are
+compared.
+-/
 namespace Juno.C06.Props
 open Juno.C06
 
-/-- `block.Number-2` for block 1 wraps to 2^64-1. -/
-theorem sub64_one_two : sub64 1 2 = U64 - 1 := by decide
+theorem step_reorgDetected (cfg : Cfg) (s : Impl) (next : Nat) (latest : Option Hdr) :
+    (s.step cfg (.reorgDetected next latest)).2 = [] ∧
+      (s.step cfg (.reorgDetected next latest)).1.node = s.node := by
+  cases ht : s.task with
+  | some _ => simp [Impl.step, ht]
+  | none =>
+    cases latest with
+    | none => cases hir : isReverting cfg s.node.chain next none <;> simp [Impl.step, ht, hir]
+    | some l => cases hir : isReverting cfg s.node.chain next (some l) <;> simp [Impl.step, ht, hir]
+
+/-! ## every block the node stores passed verification and extended the head -/
+
+/-- For EVERY state and EVERY event (no hypothesis): a step that stores a block got that block from
+the source (`deliver`), `SanityCheckNewHeight` accepted it (`b.ok`), the stream had not been
+cancelled, its number is head+1 (0 on an empty chain) and its parent hash is the head's hash
+(`felt.Zero` on an empty chain), and afterwards it is the head. -/
+theorem stored_verified_and_extends (cfg : Cfg) (s : Impl) (e : Ev) (n h : Nat)
+    (hs : Obs.stored n h ∈ (s.step cfg e).2) :
+    ∃ req b, e = .deliver req b false ∧ b.ok = true ∧ b.num = n ∧ b.hash = h ∧
+      b.num = nextHeight s.node.chain ∧ b.parent = expParent s.node.chain ∧
+      (s.step cfg e).1.node.chain = b :: s.node.chain := by
+  cases e with
+  | deliver req b c =>
+    cases ht : s.task with
+    | some _ => simp [Impl.step, ht] at hs
+    | none =>
+      by_cases hok : b.ok = true
+      case neg => simp [Impl.step, ht, hok] at hs
+      case pos =>
+      cases c with
+      | true => simp [Impl.step, ht, hok] at hs
+      | false =>
+        cases hsucc : succession s.node.chain b with
+        | badNumber => simp [Impl.step, ht, hok, hsucc] at hs
+        | parentMismatch => simp [Impl.step, ht, hok, hsucc] at hs
+        | stored =>
+          obtain ⟨h1, h2⟩ := succession_stored hsucc
+          have hs' : Obs.stored n h ∈ (onStored s.node b).2 := by
+            simpa [Impl.step, ht, hok, hsucc] using hs
+          have : b.num = n ∧ b.hash = h := by
+            unfold onStored at hs'
+            simp only [List.mem_append, List.mem_cons, List.mem_nil_iff, or_false] at hs'
+            rcases hs' with (e | e) | e
+            · cases e; exact ⟨rfl, rfl⟩
+            · cases hr : s.node.reorg <;> simp [reorgObs, hr] at e
+            · cases e
+          exact ⟨req, b, rfl, hok, this.1, this.2, h1, h2, by simp [Impl.step, ht, hok, hsucc, onStored]⟩
+  | reorgDetected next latest =>
+    rw [(step_reorgDetected cfg s next latest).1] at hs; cases hs
+  | iter ans revOk =>
+    cases ht : s.task with
+    | none => simp [Impl.step, ht] at hs
+    | some lpv =>
+      cases hch : s.node.chain with
+      | nil => simp [Impl.step, ht, hch] at hs
+      | cons H T =>
+        cases hit : revertIter cfg lpv H ans with
+        | brk => simp [Impl.step, ht, hch, hit] at hs
+        | revert cont => cases revOk <;> simp [Impl.step, ht, hch, hit, revertHead] at hs
+
+/-! ## the head only moves backwards by explicit reverts -/
+
+/-- For EVERY state and EVERY event: the chain is unchanged, or grew by one stored block, or lost
+exactly its head in an explicit revert (`RevertHead`, reported as `reverted`), which only a running
+`revertTask` does. -/
+theorem head_moves_back_only_by_revert (cfg : Cfg) (s : Impl) (e : Ev) :
+    (s.step cfg e).1.node.chain = s.node.chain ∨
+    (∃ b, (s.step cfg e).1.node.chain = b :: s.node.chain ∧ Obs.stored b.num b.hash ∈ (s.step cfg e).2) ∨
+    (∃ hd lpv, s.node.chain = hd :: (s.step cfg e).1.node.chain ∧ s.task = some lpv ∧
+      (s.step cfg e).2 = [Obs.reverted hd.num hd.hash]) := by
+  cases e with
+  | deliver req b c =>
+    cases ht : s.task with
+    | some _ => left; simp [Impl.step, ht]
+    | none =>
+      by_cases hok : b.ok = true
+      case neg => left; simp [Impl.step, ht, hok]
+      case pos =>
+      cases c with
+      | true => left; simp [Impl.step, ht, hok]
+      | false =>
+        cases hsucc : succession s.node.chain b with
+        | badNumber => left; simp [Impl.step, ht, hok, hsucc]
+        | parentMismatch => left; simp [Impl.step, ht, hok, hsucc]
+        | stored => right; left; exact ⟨b, by simp [Impl.step, ht, hok, hsucc, onStored]⟩
+  | reorgDetected next latest =>
+    left; rw [(step_reorgDetected cfg s next latest).2]
+  | iter ans revOk =>
+    cases ht : s.task with
+    | none => left; simp [Impl.step, ht]
+    | some lpv =>
+      cases hch : s.node.chain with
+      | nil => left; simp [Impl.step, ht, hch]
+      | cons H T =>
+        cases hit : revertIter cfg lpv H ans with
+        | brk =>
+          left
+          by_cases hle : H.num ≤ lpv
+          · cases ans <;> simp [Impl.step, ht, hch, hit, hle]
+          · simp [Impl.step, ht, hch, hit, hle]
+        | revert cont =>
+          cases revOk with
+          | false =>
+            left
+            by_cases hle : H.num ≤ lpv
+            · cases ans <;> simp [Impl.step, ht, hch, hit, hle, revertHead]
+            · simp [Impl.step, ht, hch, hit, hle, revertHead]
+          | true =>
+            right; right
+            refine ⟨H, lpv, ?_, rfl, ?_⟩
+            · by_cases hle : H.num ≤ lpv
+              · cases ans <;> simp [Impl.step, ht, hch, hit, hle, revertHead]
+              · simp [Impl.step, ht, hch, hit, hle, revertHead]
+            · simp [Impl.step, ht, hch, hit, revertHead]
+
+/-- Conditions on the environment of a run that do not depend on the state: block numbers are
+uint64 values and `RevertHead` succeeds. -/
+def EnvOK : List Ev → Prop
+  | [] => True
+  | .deliver _ b _ :: es => b.num < U64 ∧ EnvOK es
+  | .iter _ revOk :: es => revOk = true ∧ EnvOK es
+  | _ :: es => EnvOK es
+
+theorem EnvOK.runOK {cfg : Cfg} (hn : cfg.numCheck = true) :
+    ∀ (es : List Ev) (s : Impl), EnvOK es → s.runOK cfg es
+  | [], _, _ => trivial
+  | .deliver _ _ _ :: es, s, h => ⟨h.1, EnvOK.runOK hn es _ h.2⟩
+  | .reorgDetected _ _ :: es, s, h => ⟨trivial, EnvOK.runOK hn es _ h⟩
+  | .iter _ _ :: es, s, h =>
+    ⟨⟨h.1, fun hf => by rw [hn] at hf; cases hf⟩, EnvOK.runOK hn es _ h.2⟩
+
+/-- REFINEMENT. Every run of the machine from a well-formed chain — whatever the source answers, in
+whatever order — is accepted by the evidence-based relation `Spec`: every stored block was served,
+verified and extends the head; every revert removes the head and is justified by an answer of the
+source (`justified`); the notifications are exactly the ones owed, in order; nothing stays owed.
+`Impl.runOK` asks: uint64 block numbers, `RevertHead` succeeds, and — only if the code does not
+check it itself (`cfg.numCheck = false`, the code as found) — that `revertTask`'s
+`BlockByNumber(h)` is answered with a block numbered `h`. The STRICT relation (no revert is ever
+decided on a successor block fetched earlier) holds for the code that confirms the head first
+(`cfg.confirmHead`). -/
+theorem run_accepted (cfg : Cfg) (strict : Bool) (hsc : strict = true → cfg.confirmHead = true)
+    (c : Chain) (es : List Ev) (hl : Linked c)
+    (hb : ∀ x ∈ c, x.num < U64) (hok : (Impl.init c).runOK cfg es) :
+    ∃ sp, Spec.run strict (Spec.init c) ((Impl.init c).trace cfg es) = .ok sp ∧
+      sp.chain = (Impl.run cfg (Impl.init c) es).1.node.chain ∧ sp.owed = [] := by
+  obtain ⟨sp, hr, hs⟩ := Sim.run cfg hsc es (Sim.init hl hb) hok
+  exact ⟨sp, hr, hs.chain, hs.owed⟩
+
+/-- With the number check in `revertTask` and the head confirmation in `storeTask` (proposed
+fixes) the refinement needs no assumption about the source at all, and holds for the strict
+relation. -/
+theorem run_accepted_fixed (cfg : Cfg) (hn : cfg.numCheck = true) (hc : cfg.confirmHead = true)
+    (c : Chain) (es : List Ev) (hl : Linked c) (hb : ∀ x ∈ c, x.num < U64) (he : EnvOK es) :
+    ∃ sp, Spec.run true (Spec.init c) ((Impl.init c).trace cfg es) = .ok sp ∧
+      sp.chain = (Impl.run cfg (Impl.init c) es).1.node.chain ∧ sp.owed = [] :=
+  run_accepted cfg true (fun _ => hc) c es hl hb (EnvOK.runOK hn es _ he)
+
+/- FULL-STRENGTH statement for the code as found — `run_accepted_fixed` with `cfg := Cfg.asFound` —
+is FALSE, in two ways: (1) `revertTask` compares only hashes, so one answer carrying another block
+number makes it revert a block without any evidence against it
+(`wrong_number_answer_reverts_unjustified`); (2) `storeTask` reverts the head on a successor block
+that may have been fetched before the head was stored (`stale_answer_reverts_live_block`). Proved
+part: the non-strict relation, assuming well-numbered answers (`Impl.runOK`). -/
+theorem run_accepted_asFound_partial (c : Chain) (es : List Ev) (hl : Linked c)
+    (hb : ∀ x ∈ c, x.num < U64) (hok : (Impl.init c).runOK Cfg.asFound es) :
+    ∃ sp, Spec.run false (Spec.init c) ((Impl.init c).trace Cfg.asFound es) = .ok sp ∧
+      sp.chain = (Impl.run Cfg.asFound (Impl.init c) es).1.node.chain ∧ sp.owed = [] :=
+  run_accepted Cfg.asFound false (fun h => by cases h) c es hl hb hok
+
+/-- why the acceptor rejected a trace (`none` = accepted) -/
+def rejectOf : Except Reject Spec → Option Reject
+  | .ok _ => none
+  | .error r => some r
+
+/-- Negation witness (finding `revert-decided-on-answer-with-wrong-block-number`): node on
+`[g, x1]`. A latest header `(1, 99)` that differs from the node's block 1 starts `revertTask(0)`:
+block 1 is reverted (justified). For block 0 the task asks the source; the source answers
+`BlockByNumber(0)` with its valid block number 2: the hashes differ, so the code as found reverts
+the genesis too — no answer of the source contradicts it, `Spec` rejects the trace. With the number
+check the task breaks instead. -/
+theorem wrong_number_answer_reverts_unjustified :
+    let g : Blk := ⟨0, 1, 0, true⟩
+    let x1 : Blk := ⟨1, 2, 1, true⟩
+    let x2 : Blk := ⟨2, 3, 2, true⟩
+    let es : List Ev := [.reorgDetected 2 (some ⟨1, 99⟩), .iter none true, .iter (some x2) true]
+    EnvOK es ∧
+    (Impl.run Cfg.asFound (Impl.init [x1, g]) es).2 = [Obs.reverted 1 2, Obs.reverted 0 1] ∧
+    rejectOf (Spec.run false (Spec.init [x1, g]) ((Impl.init [x1, g]).trace Cfg.asFound es)) =
+      some .revertNotJustified ∧
+    (Impl.run Cfg.fixed (Impl.init [x1, g]) es).2 = [Obs.reverted 1 2] ∧
+    rejectOf (Spec.run true (Spec.init [x1, g]) ((Impl.init [x1, g]).trace Cfg.fixed es)) = none := by
+  refine ⟨⟨rfl, rfl, trivial⟩, by decide, by decide, by decide, by decide⟩
+
+/-! ## reverts remove only blocks the source no longer has -/
+
+/-- What acceptance of a revert means: the block is the head and the source has contradicted it. -/
+theorem accepted_revert_is_justified (strict : Bool) (s s' : Spec) (n h : Nat)
+    (hst : Spec.step strict s (.obs (.reverted n h)) = .ok s') :
+    ∃ hd tl, s.chain = hd :: tl ∧ hd.num = n ∧ hd.hash = h ∧ justified strict s.ev s.chain hd = true ∧
+      s'.chain = tl := by
+  obtain ⟨hd, tl, h1, h2, h3, h4, h5⟩ := Spec.reverted_inv hst
+  exact ⟨hd, tl, h1, h2, h3, h4, by rw [h5]⟩
+
+/-- Soundness of the evidence: if every answer the node has seen so far is true of ONE chain `src`
+(served blocks are blocks of `src`, latest headers — possibly stale — are headers of blocks of
+`src`) and hashes are collision free, a justified revert removes a block `src` does not contain. -/
+theorem justified_revert_not_in_source (strict : Bool) (u : List Blk) (hi : HashInj u) (ev : Evidence)
+    (src : Chain) (hd : Blk) (tl : Chain) (hlc : Linked (hd :: tl)) (hls : Linked src)
+    (hcu : ∀ x ∈ hd :: tl, x ∈ u) (hsu : ∀ x ∈ src, x ∈ u)
+    (hon : Honest ev src) (hj : justified strict ev (hd :: tl) hd = true) : hd ∉ src :=
+  justified_sound hi rfl hlc hls hcu hsu hon hj
+
+/-- Negation witness (finding `reverted-live-block-on-successor-fetched-before-the-reorg`): answers
+that were each true when given but belong to DIFFERENT chains of the source do cause the revert of
+a block the source holds now. Source was `[g, a1, a2]`, is now `[g, b1]`; the node already stored
+`b1` (fetched after the reorg); the block `a2`, fetched before the reorg by a parallel fetcher,
+arrives: `ErrParentDoesNotMatchHead`, `revertTask(0)` reverts `b1` without asking. The non-strict
+relation accepts this (a verified successor with another parent was served), the strict one
+rejects it; the code that confirms the head first asks for block 1, gets `b1`, and keeps it. -/
+theorem stale_answer_reverts_live_block :
+    let g : Blk := ⟨0, 1, 0, true⟩
+    let b1 : Blk := ⟨1, 20, 1, true⟩
+    let a2 : Blk := ⟨2, 11, 10, true⟩
+    let es : List Ev := [.deliver 2 a2 false, .iter (some b1) true]
+    EnvOK es ∧
+    (Impl.run Cfg.asFound (Impl.init [b1, g]) es).2 = [Obs.reverted 1 20] ∧
+    rejectOf (Spec.run false (Spec.init [b1, g]) ((Impl.init [b1, g]).trace Cfg.asFound es)) = none ∧
+    rejectOf (Spec.run true (Spec.init [b1, g]) ((Impl.init [b1, g]).trace Cfg.asFound es)) =
+      some .revertNotJustified ∧
+    (Impl.run Cfg.fixed (Impl.init [b1, g]) es).2 = [] := by
+  exact ⟨⟨by decide, rfl, trivial⟩, by decide, by decide, by decide, by decide⟩
+
+/-! ## notifications are exact -/
+
+/-- In every run (same conditions as `run_accepted`) the feed sends are EXACTLY the ones the
+commits demand, in order: per stored block one new-head notification, preceded — iff blocks were
+reverted since the previous store — by one reorg notification whose range starts at the last block
+reverted and ends at the first one (`expectedNotifs`, `rangeNH`). -/
+theorem notifications_exact (cfg : Cfg) (c : Chain) (es : List Ev) (hl : Linked c)
+    (hb : ∀ x ∈ c, x.num < U64) (hok : (Impl.init c).runOK cfg es) :
+    notifsOf ((Impl.init c).trace cfg es) = expectedNotifs [] ((Impl.init c).trace cfg es) := by
+  obtain ⟨sp, hr, _, ho⟩ := run_accepted cfg false (fun h => by cases h) c es hl hb hok
+  have := Spec.notifs_balance false _ _ _ hr
+  simpa [Spec.init, ho] using this.symm
+
+/-- The same for any trace the acceptor accepts with nothing owed before or after (this is what
+the harness establishes for each observed run of the real Synchronizer). -/
+theorem accepted_notifications_exact (strict : Bool) (s s' : Spec) (tr : List SEv)
+    (hr : Spec.run strict s tr = .ok s')
+    (h0 : s.owed = []) (h1 : s'.owed = []) :
+    notifsOf tr = expectedNotifs (s.pending.map (fun b => (b.num, b.hash))) tr := by
+  have := Spec.notifs_balance strict _ _ _ hr
+  simpa [h0, h1] using this.symm
+
+/-- When `RevertHead` fails the code still extends `currReorg`: the next reorg notification then
+covers a block that was not reverted (witness; this is why `EnvOK` asks for `revOk`). -/
+theorem failed_revert_makes_reorg_range_wrong :
+    let g : Blk := ⟨0, 1, 0, true⟩
+    let x1 : Blk := ⟨1, 2, 1, true⟩
+    let y2 : Blk := ⟨2, 30, 2, true⟩
+    let es : List Ev := [.reorgDetected 2 (some ⟨0, 77⟩), .iter (some ⟨1, 55, 1, true⟩) false,
+      .deliver 2 y2 false]
+    (Impl.run Cfg.asFound (Impl.init [x1, g]) es).2 =
+      [Obs.revertFailed 1 2, Obs.stored 2 30, Obs.reorg ⟨1, 2, 1, 2⟩, Obs.newHead 2 30] := by
+  decide
+
+/-! ## convergence of the canonical sequential schedule -/
+
+/-- Against a stable honest source (`Setting`: a well-formed chain of verified blocks, shorter than
+2^64, collision-free hashes) the restart loop's canonical sequential schedule reaches
+`node.chain = source.chain` within `|source| + |node| + 1` rounds and stays there, from every
+well-formed node chain such that (i) the source's chain is not a proper prefix of the node's
+(`Good.notTrunc`) and (ii) `Good.noUnderflow`: the code has the `remoteHeight = 0` guard, or the
+source holds more than one block, or the node holds at most one. Terminating measure: `measure`.
+PARTIAL because of (ii): the full-strength statement (without it) is false for the code as found,
+see `no_convergence_remote_height_zero`; and because liveness is only shown for this schedule, not
+for arbitrary fair goroutine schedules. -/
+theorem convergence_sequential_partial (cfg : Cfg) (u : List Blk) (src : Chain) (n : Node)
+    (S : Setting u src) (G : Good cfg u src n.chain) (k : Nat)
+    (hk : src.length + n.chain.length + 1 ≤ k) :
+    (runRounds cfg src k n).1.chain = src :=
+  runRounds_chain S k n G (Nat.le_trans (measure_le _ _) hk)
+
+/-- With the proposed `remoteHeight = 0` guard, hypothesis (ii) disappears. -/
+theorem convergence_sequential_fixed (cfg : Cfg) (hz : cfg.zeroGuard = true) (u : List Blk)
+    (src c : Chain) (r : Option Range) (S : Setting u src) (hl : Linked c) (hu : ∀ b ∈ c, b ∈ u)
+    (hb : c.length < U64) (ht : src <:+ c → src = c) (k : Nat)
+    (hk : src.length + c.length + 1 ≤ k) :
+    (runRounds cfg src k ⟨c, r⟩).1.chain = src :=
+  convergence_sequential_partial cfg u src ⟨c, r⟩ S ⟨hl, hu, hb, ht, Or.inl hz⟩ k hk
+
+/-- Negation witness (finding `no-convergence-when-source-chain-is-a-different-genesis-only`):
+source `[g']`, node `[g, x1]`: `isReverting` returns `remoteHeight - 1 = 2^64-1`, `revertTask` asks
+for block 1, the source has none, the loop breaks; every round leaves the node unchanged, for ever.
+The guard repairs it. -/
+theorem no_convergence_remote_height_zero :
+    let g : Blk := ⟨0, 1, 0, true⟩
+    let x1 : Blk := ⟨1, 2, 1, true⟩
+    let g' : Blk := ⟨0, 50, 0, true⟩
+    (∀ k, (runRounds Cfg.asFound [g'] k ⟨[x1, g], none⟩).1.chain = [x1, g]) ∧
+    (runRounds Cfg.fixed [g'] 4 ⟨[x1, g], none⟩).1.chain = [g'] := by
+  refine ⟨?_, by decide⟩
+  intro k
+  induction k with
+  | zero => rfl
+  | succ k ih =>
+    have hr : round Cfg.asFound [⟨0, 50, 0, true⟩] ⟨[⟨1, 2, 1, true⟩, ⟨0, 1, 0, true⟩], none⟩ =
+        (⟨[⟨1, 2, 1, true⟩, ⟨0, 1, 0, true⟩], none⟩, []) := by decide
+    have hstep : (runRounds Cfg.asFound [⟨0, 50, 0, true⟩] (k + 1)
+          ⟨[⟨1, 2, 1, true⟩, ⟨0, 1, 0, true⟩], none⟩).1 =
+        (runRounds Cfg.asFound [⟨0, 50, 0, true⟩] k
+          (round Cfg.asFound [⟨0, 50, 0, true⟩] ⟨[⟨1, 2, 1, true⟩, ⟨0, 1, 0, true⟩], none⟩).1).1 := rfl
+    rw [hstep, hr]; exact ih
+
+/-! ## the uint64 subtractions -/
+
+/-- `block.Number - 2` (storeTask) wraps for blocks 0 and 1, `remoteHeight - 1` (isReverting) for
+remote height 0: the result is at least 2^64-2, so for every head numbered below that `revertTask`
+takes the checking branch — it never reverts without comparing hashes (harmless for safety; for
+`remoteHeight - 1` it costs liveness, see above). -/
+theorem underflow_always_compares (cfg : Cfg) (hd : Blk) (ans : Option Blk) (lpv : Nat)
+    (hl : lpv = sub64 0 2 ∨ lpv = sub64 1 2 ∨ lpv = sub64 0 1) (hn : hd.num < U64 - 2) :
+    revertIter cfg lpv hd ans = .brk ∨
+      ∃ rb cont, ans = some rb ∧ rb.hash ≠ hd.hash ∧ revertIter cfg lpv hd ans = .revert cont := by
+  have hle : hd.num ≤ lpv := by
+    have e1 : sub64 0 2 = U64 - 2 := by decide
+    have e2 : sub64 1 2 = U64 - 1 := by decide
+    have e3 : sub64 0 1 = U64 - 1 := by decide
+    rcases hl with h | h | h <;> rw [h] <;> unfold U64 at * <;> omega
+  cases hit : revertIter cfg lpv hd ans with
+  | brk => exact Or.inl rfl
+  | revert cont =>
+    obtain ⟨rb, h1, h2⟩ := revertIter_checked hle hit
+    exact Or.inr ⟨rb, cont, h1, h2, rfl⟩
+
+/-- No wrap in the ordinary cases: the arithmetic is what the comments in the code say. -/
+theorem sub64_no_wrap (a b : Nat) (hb : b ≤ a) (ha : a < U64) : sub64 a b = a - b :=
+  sub64_of_le hb ha
+
+/-! ## non-vacuity -/
+
+-- a catch-up + reorg run that satisfies every hypothesis of `run_accepted` and does something
+example :
+    let g : Blk := ⟨0, 1, 0, true⟩
+    let x1 : Blk := ⟨1, 2, 1, true⟩
+    let y1 : Blk := ⟨1, 12, 1, true⟩
+    let y2 : Blk := ⟨2, 13, 12, true⟩
+    let es : List Ev := [.deliver 0 g false, .deliver 1 x1 false, .deliver 2 y2 false,
+      .iter none true, .iter (some g) true, .deliver 1 y1 false, .deliver 2 y2 false]
+    Linked ([] : Chain) ∧ EnvOK es ∧
+    (Impl.run Cfg.fixed (Impl.init []) es).2 =
+      [.stored 0 1, .newHead 0 1, .stored 1 2, .newHead 1 2, .reverted 1 2,
+       .stored 1 12, .reorg ⟨1, 2, 1, 2⟩, .newHead 1 12, .stored 2 13, .newHead 2 13] ∧
+    (Impl.run Cfg.asFound (Impl.init []) es).2 = (Impl.run Cfg.fixed (Impl.init []) es).2 := by
+  refine ⟨trivial, ?_, by decide, by decide⟩
+  exact ⟨by decide, by decide, by decide, rfl, rfl, by decide, by decide, trivial⟩
+
+-- a setting and a node chain that satisfy the hypotheses of `convergence_sequential_partial`
+example :
+    let g : Blk := ⟨0, 1, 0, true⟩
+    let x1 : Blk := ⟨1, 2, 1, true⟩
+    let y1 : Blk := ⟨1, 12, 1, true⟩
+    (runRounds Cfg.asFound [y1, g] 5 ⟨[x1, g], none⟩).1.chain = [y1, g] ∧
+    (runRounds Cfg.asFound [y1, g] 5 ⟨[x1, g], none⟩).2 =
+      [.reverted 1 2, .stored 1 12, .reorg ⟨1, 2, 1, 2⟩, .newHead 1 12] := by decide
 
 end Juno.C06.Props
